@@ -13,12 +13,14 @@ import sys
 
 import numpy as np
 
-from EasyFEA.FEM._linalg import FeArray, Transpose, Trace, Det, Inv
+from EasyFEA.FEM._linalg import FeArray, Transpose, Trace, Det, Inv, TensorProd, Norm, Normalize
 from EasyFEA.FEM._field import Field
 
 BIN = {0: (operator.add, np.add), 1: (operator.sub, np.subtract), 2: (operator.mul, np.multiply),
        3: (operator.truediv, np.true_divide), 4: (None, np.maximum), 5: (None, np.minimum),
-       6: (operator.gt, np.greater), 7: (operator.le, np.less_equal), 8: (operator.eq, np.equal)}
+       6: (operator.gt, np.greater), 7: (operator.le, np.less_equal), 8: (operator.eq, np.equal),
+       9: (operator.lt, np.less), 10: (operator.ge, np.greater_equal), 11: (operator.ne, np.not_equal)}
+IOP = {0: operator.iadd, 1: operator.isub, 2: operator.imul, 3: operator.itruediv}
 UN = {0: (operator.neg, np.negative), 1: (abs, np.absolute), 2: (lambda x: x ** 2, np.square)}
 RED = {0: "sum", 1: "prod", 2: "max", 3: "min"}
 EXC = {ValueError: 1, TypeError: 2, KeyError: 3}
@@ -86,10 +88,42 @@ def run_case(c):
         if axis is not None:
             axis = tuple(axis) if (len(axis) != 1 or c.get("tuple")) else axis[0]
         name = RED[c["code"]]
+        extra = {"keepdims": True} if c.get("keepdims") else {}
         if how == "method":
-            return getattr(A[0], name)(axis=axis) if c.get("kw", True) else getattr(A[0], name)(axis)
+            return getattr(A[0], name)(axis=axis, **extra) if c.get("kw", True) else getattr(A[0], name)(axis, **extra)
         f = getattr(np, name)
-        return f(A[0], axis=axis) if c.get("kw", True) else f(A[0], axis)
+        return f(A[0], axis=axis, **extra) if c.get("kw", True) else f(A[0], axis, **extra)
+    if op == "TensorProd":
+        kw = {} if c.get("nd") is None else {"ndim": c["nd"]}
+        return TensorProd(A[0], A[1], symmetric=bool(c["sym"]), **kw)
+    if op == "Norm":
+        ax = c["axis"]
+        return Norm(A[0]) if ax is None else Norm(A[0], axis=tuple(ax) if isinstance(ax, list) else ax)
+    if op == "Normalize":
+        return Normalize(A[0], axis=c["axis"])
+    if op == "concat":
+        return np.concatenate(A, axis=c["axis"])
+    if op == "stack":
+        return np.stack(A, axis=c["axis"])
+    if op == "swapaxes":
+        return np.swapaxes(A[0], c["axes"][0], c["axes"][1])
+    if op == "linalg":
+        return getattr(np.linalg, c["fn"])(*A)
+    if op == "inplace":
+        x = A[0]
+        y = IOP[c["code"]](x, A[1])
+        if y is not x:
+            raise RuntimeError("in-place operator returned a new object")
+        return y
+    if op == "out":
+        shape = c["out_shape"]
+        out = np.zeros(shape)
+        if c["out_kind"] == "fe":
+            out = FeArray.asfearray(out)
+        r = BIN[c["code"]][1](A[0], A[1], out=out)
+        if r is not out:
+            raise RuntimeError("out= result is not the out array")
+        return r
     if op == "einsum":
         s = ",".join("..." + subs(l) for l in c["labels"]) + "->..." + subs(c["out"])
         return np.einsum(s, *A)
@@ -126,11 +160,17 @@ def observe(r):
     return {"kind": 20, "shape": [], "data": [], "note": type(r).__name__}
 
 
-def same_obs(a, b):
+def same_obs(a, b, tol=None):
     if a["kind"] >= 10 and b["kind"] >= 10:
         return True
-    return (a["kind"] == b["kind"] and list(a["shape"]) == list(b["shape"])
-            and [tofrac(x) for x in a["data"]] == [tofrac(x) for x in b["data"]])
+    if a["kind"] != b["kind"] or list(a["shape"]) != list(b["shape"]) or len(a["data"]) != len(b["data"]):
+        return False
+    if tol:
+        xa = [float(tofrac(x)) for x in a["data"]]
+        xb = [float(tofrac(x)) for x in b["data"]]
+        scale = max([1.0] + [abs(x) for x in xa])
+        return all(abs(x - y) <= tol * scale for x, y in zip(xa, xb))
+    return [tofrac(x) for x in a["data"]] == [tofrac(x) for x in b["data"]]
 
 
 def main():
@@ -156,7 +196,9 @@ def main():
         except Exception:
             orc = None
         if orc is not None:
-            o["oracle_ok"] = same_obs(orc, o)
+            o["oracle_ok"] = same_obs(orc, o, c.get("tol"))
+            if not o["oracle_ok"]:
+                o["oracle"] = orc
         out.append(o)
     # real Field objects (a small mesh): operator(c, field) must be operator(c, field())
     real = []
@@ -225,7 +267,7 @@ def describe(c):
         return "%s @ %s" % (ops[0], ops[1])
     if op in ("dot", "ddot"):
         return "%s.%s(%s)" % (ops[0], op, ops[1])
-    return "%s(%s)%s" % (op, ", ".join(ops), " " + json.dumps({k: c[k] for k in c if k in ("axis", "code", "how", "labels", "out", "Ne", "nPg", "td")}))
+    return "%s(%s)%s" % (op, ", ".join(ops), " " + json.dumps({k: c[k] for k in c if k in ("axis", "axes", "code", "how", "labels", "out", "Ne", "nPg", "td", "sym", "nd", "fn", "keepdims", "out_kind")}))
 
 
 def _err():
@@ -277,10 +319,129 @@ def _matfun_oracle(c):
     return {"kind": 1 if o["k"] == "fe" else 0, "shape": shape, "data": data}
 
 
+def _arr(o):
+    if o["k"] == "scalar":
+        return num(o["data"][0])
+    return np.array([num(x) for x in o["data"]], dtype=float).reshape(o["shape"])
+
+
+def _obs(kind, res):
+    res = np.asarray(res, dtype=float)
+    return {"kind": kind, "shape": list(res.shape), "data": [frac(x) for x in res.ravel()]}
+
+
+def _per_point(arrs, kinds, f):
+    """apply f to the tensors held at each (e, p) -- plain numpy arrays only -- and stack"""
+    leads = [a.shape[:2] for a, k in zip(arrs, kinds) if k in ("fe", "field")]
+    Ne, nPg = np.broadcast_shapes(*leads)
+
+    def at(a, k, e, p):
+        if k in ("fe", "field"):
+            return np.asarray(a[e if a.shape[0] > 1 else 0, p if a.shape[1] > 1 else 0])
+        return a
+    rows = [[np.asarray(f(*[at(a, k, e, p) for a, k in zip(arrs, kinds)]), dtype=float) for p in range(nPg)] for e in range(Ne)]
+    return np.array(rows, dtype=float).reshape((Ne, nPg) + rows[0][0].shape)
+
+
+def _tensorprod_point(sym):
+    def f(A, B):
+        if A.ndim != B.ndim or A.ndim not in (1, 2):
+            raise ValueError("rank")
+        O = np.multiply.outer(A, B)
+        if A.ndim == 1 or not sym:
+            return O
+        # O[i,a,j,b] = A_ia B_jb ;  A_ik B_jl = O[i,k,j,l] ;  A_il B_jk = O[i,l,j,k]
+        return 0.5 * (O.transpose(0, 2, 1, 3) + O.transpose(0, 2, 3, 1))
+    return f
+
+
+def _extra_oracle(c):
+    op = c["op"]
+    kinds = [o["k"] for o in c["args"]]
+    arrs = [_arr(o) for o in c["args"]]
+    if op == "TensorProd":
+        if "scalar" in kinds or len(set(kinds)) != 1:
+            return _err()
+        if kinds[0] == "plain":
+            if c.get("nd") not in (None, arrs[0].ndim) or arrs[0].size != arrs[1].size:
+                return None if c.get("nd") is not None else _err()
+            return _obs(0, _tensorprod_point(c["sym"])(arrs[0], arrs[1]))
+        if c.get("nd") not in (None, arrs[0].ndim - 2):
+            return None
+        return _obs(1, _per_point(arrs, kinds, _tensorprod_point(c["sym"])))
+    if op in ("Norm", "Normalize"):
+        x = arrs[0]
+        ax = c["axis"]
+        if ax is None:
+            return _obs(0, np.sqrt(np.sum(x * x)))
+        if isinstance(ax, list):       # Frobenius norm over two axes
+            js = tuple(a if a >= 0 else a + x.ndim for a in ax)
+            if kinds[0] == "fe" and all(j >= 2 for j in js):
+                return _obs(1, _per_point(arrs, kinds, lambda t: np.sqrt(np.sum(t * t, axis=tuple(j - 2 for j in js)))))
+            return _obs(0, np.sqrt(np.sum(x * x, axis=js)))
+        j = ax if ax >= 0 else ax + x.ndim
+
+        def nrm(t, a, keep):
+            return np.sqrt(np.sum(t * t, axis=a, keepdims=keep))
+        if op == "Norm":
+            if kinds[0] == "fe" and j >= 2:
+                return _obs(1, _per_point(arrs, kinds, lambda t: nrm(t, j - 2, False)))
+            return _obs(0, nrm(x, j, False))
+
+        def normalize(t, a):
+            n = nrm(t, a, True)
+            return t / np.where(n == 0.0, 1.0, n)
+        if kinds[0] == "fe" and j >= 2:
+            return _obs(1, _per_point(arrs, kinds, lambda t: normalize(t, j - 2)))
+        return _obs(1 if kinds[0] == "fe" else 0, normalize(x, j))
+    if op == "reduce":
+        x = arrs[0]
+        f = getattr(np, RED[c["code"]])
+        kd = bool(c.get("keepdims"))
+        if c["axis"] is None:
+            return _obs(0, f(x, axis=None, keepdims=kd))
+        axes = tuple(a if a >= 0 else a + x.ndim for a in c["axis"])
+        if all(a >= 2 for a in axes):
+            return _obs(1, _per_point(arrs, kinds, lambda t: f(t, axis=tuple(a - 2 for a in axes), keepdims=kd)))
+        return _obs(0, f(x, axis=axes, keepdims=kd))
+    if op in ("concat", "stack"):
+        nd = arrs[0].ndim + (1 if op == "stack" else 0)
+        j = c["axis"] if c["axis"] >= 0 else c["axis"] + nd
+        g = np.concatenate if op == "concat" else np.stack
+        if j >= 2:
+            return _obs(1, _per_point(arrs, kinds, lambda *ts: g(list(ts), axis=j - 2)))
+        return _obs(0, g(arrs, axis=j))          # the (Ne, nPg) axes are not preserved
+    if op == "swapaxes":
+        x = arrs[0]
+        a, b = [v if v >= 0 else v + x.ndim for v in c["axes"]]
+        if a >= 2 and b >= 2:
+            return _obs(1, _per_point(arrs, kinds, lambda t: np.swapaxes(t, a - 2, b - 2)))
+        return _obs(0 if a != b else 1, np.swapaxes(x, a, b))
+    if op == "linalg":
+        g = getattr(np.linalg, c["fn"])
+        return _obs(1, _per_point(arrs, kinds, lambda *ts: g(*ts)))
+    if op in ("inplace", "out"):
+        base = loop_oracle(dict(c, op="ufunc2"))
+        if base is None or base["kind"] >= 10:
+            return base
+        want = c["args"][0]["shape"] if op == "inplace" else c["out_shape"]
+        if list(base["shape"]) != list(want):
+            return _err()
+        base["kind"] = 1 if (op == "inplace" or c["out_kind"] == "fe") else 0
+        return base
+    return None
+
+
 def loop_oracle(c):
     op = c["op"]
     if op in ("Det", "Inv", "Trace"):
         return _matfun_oracle(c)
+    if op in ("TensorProd", "Norm", "Normalize", "reduce", "concat", "stack", "swapaxes", "linalg", "inplace", "out"):
+        try:
+            with np.errstate(all="ignore"):
+                return _extra_oracle(c)
+        except Exception:
+            return _err()
     if op not in ("ufunc2", "matmul", "dot", "ddot"):
         return None
     kinds = [o["k"] for o in c["args"]]
